@@ -3,10 +3,10 @@
    examples.  Models: Combiners/{Lawful,Basic,TopK,Distinct}.v; proofs: Proofs/Combiners*.v.
    Integers are Z (machine overflow out of scope); AverageF64 is exact over Q (floating-point
    rounding is outside the theorems); Min/Max finish returning None = the `expect` panic. *)
-From Coq Require Import List ZArith QArith Bool Permutation Sorted.
+From Coq Require Import List ZArith QArith Bool Permutation Sorted Lia.
 From IB Require Import Combiners.Lawful Combiners.Basic Combiners.TopK Combiners.Distinct.
 From IB Require Import Proofs.CombinersLawful Proofs.CombinersBasic Proofs.CombinersTopK
-  Proofs.CombinersDistinct Proofs.CombinersC06.
+  Proofs.CombinersDistinct Proofs.CombinersKMV Proofs.CombinersC06.
 Import ListNotations.
 Open Scope Z_scope.
 
@@ -234,7 +234,45 @@ Proof.
   exact (fun k a m H => conj (topk_R_length k a m H) (topk_merge_create_eq k a m H)).
 Qed.
 
+(* ================= 4. KMV sketch: mergeability only (estimator and hash: C15) ================= *)
+
+(* for any rank function, any estimator computed from (set.len(), heap.peek()) and any k >= 1
+   (KMVApproxDistinctCount::new forces k >= 4) the sketch is lawful: the heap holds exactly the k
+   smallest distinct ranks of the values that went in, however they were split and merged *)
+Theorem c06_kmv_lawful :
+  forall (V O : Type) (rank : V -> Z) (est : nat -> option Z -> O) (k : nat), (1 <= k)%nat ->
+    lawful (kmv_combiner rank est k) (kmv_R rank k) (kmv_spec rank est k).
+Proof. exact @kmv_lawful. Qed.
+
+(* "the k smallest distinct ranks, largest first" determines the list *)
+Theorem c06_kmv_k_smallest_unique : forall k h h' rs,
+    k_smallest k h rs -> k_smallest k h' rs -> h = h'.
+Proof. exact k_smallest_unique. Qed.
+
+Theorem c06_kmv_tree_eq_fold :
+  forall (V O : Type) (rank : V -> Z) (est : nat -> option Z -> O) (k : nat), (1 <= k)%nat ->
+  forall (t : mtree V) vs,
+    Permutation (concat (mparts t)) vs ->
+    c_finish (kmv_combiner rank est k) (meval (kmv_combiner rank est k) t)
+    = c_finish (kmv_combiner rank est k) (fold_acc (kmv_combiner rank est k) vs).
+Proof.
+  exact (fun V O rank est k Hk =>
+           merge_tree_eq_fold _ _ _ (kmv_lawful rank est k Hk) eq (kmv_spec_functional rank est k)).
+Qed.
+
 (* ================= non-vacuity examples ================= *)
+(* KMV with k = 2, ranks = the values: of 5 3 9 1 3 7 the two smallest distinct are 1 and 3 *)
+Example ex_kmv :
+  let c := kmv_combiner (fun v : Z => v) (fun m pk => (m, pk)) 2 in
+  c_finish c (meval c (MNode (MLeaf false [5; 3; 9]) (MLeaf true [1; 3; 7]))) = (2%nat, Some 3)
+  /\ k_smallest 2 [3; 1] [5; 3; 9; 1; 3; 7].
+Proof.
+  split; [reflexivity|]. unfold k_smallest. repeat split.
+  - repeat constructor.
+  - cbn; lia.
+  - cbn. intuition.
+  - cbn in *. intuition; subst; lia.
+Qed.
 
 (* a tree with an empty part, a lifted part, ties, and the two-pointer path (k = 2 < 2 + 2) *)
 Definition ex_tree : mtree Z :=
